@@ -142,6 +142,37 @@ class Merged:
 
 
 # ------------------------------------------------------------------ Hypothesis campaign (runs inside a worker)
+def _no_history(obs):
+    return {k: x for k, x in obs.items() if k != 'history'} if isinstance(obs, dict) and 'history' in obs else obs
+
+
+def _history_violation(ctx, name, v):
+    """A failure that does not repeat on its own case: when what was observed is the DEATH of the harness process, the cause can be state the tree's code
+    carried over from earlier requests of that process (a leaked counter, a cache). The recorded request history of the dead process is replayed as one
+    unit in a fresh process (three times, after shortening it from the front); a history that kills the process every time is a violation whose replay file
+    is that history."""
+    obs = v.observed if isinstance(v.observed, dict) else None
+    if not obs or not obs.get('history'):
+        return False
+    from .harness import replay_history
+    lines = list(obs['history'])
+    variant = obs.get('variant', 'plain')
+    if not replay_history(lines, variant):
+        return False
+    for _ in range(16):
+        half = lines[len(lines) // 2:]
+        if 1 <= len(half) < len(lines) and replay_history(half, variant):
+            lines = half
+        else:
+            break
+    fails = sum(1 for _ in range(3) if replay_history(lines, variant))
+    if fails < 3:
+        return False
+    ctx.violations.append(dict(campaign=name + ':history', why='%s - the failure depends on the %d requests the same process served before (replayed as one history)' % (v.why, len(lines) - 1),
+                               case=dict(harness_history=lines, variant=variant), observed=_no_history(obs), expected=v.expected, refails=fails))
+    return True
+
+
 def hyp_campaign(ctx, name, strategy, prop, examples, seed_, case_to_json=None, max_shrinks=400):
     """Run `prop(case, ctx)` over `examples` generated cases. prop raises Violation on a property failure.
     The first failure is shrunk by Hypothesis; the minimal failing case is re-executed three times and recorded."""
@@ -181,12 +212,20 @@ def hyp_campaign(ctx, name, strategy, prop, examples, seed_, case_to_json=None, 
             cj = case_to_json(inp) if case_to_json else v.case
         except Exception:
             cj = v.case
-        rec = dict(campaign=name, why=v.why, case=cj, observed=v.observed, expected=v.expected, refails=fails)
+        rec = dict(campaign=name, why=v.why, case=cj, observed=_no_history(v.observed), expected=v.expected, refails=fails)
         if fails == 3:
             ctx.violations.append(rec)
+        elif _history_violation(ctx, name, v):
+            pass
         else:
             ctx.inconclusive += 1
             ctx.notes.append('flaky candidate in %s (%d/3 refails): %s | case %s | observed %s' % (name, fails, v.why, str(rec['case'])[:300], str(v.observed)[:300]))
+    except hypothesis.errors.Flaky:
+        # the failure did not repeat when Hypothesis re-ran the same case
+        v = state['last_fail']
+        if v is None or not _history_violation(ctx, name, v):
+            ctx.inconclusive += 1
+            ctx.notes.append('flaky candidate in %s (did not repeat under Hypothesis): %s' % (name, (v.why if v else '?')[:300]))
     except hypothesis.errors.Unsatisfiable:
         ctx.notes.append('campaign %s: unsatisfiable strategy' % name)
 
